@@ -93,3 +93,27 @@ Theorem hardfail_const : forall cfg t0 evs,
   let s := fst (run (init cfg t0) evs) in s_cfg s = cfg /\ s_hardfail s = t0 + cf_pq_noworkers cfg.
 Proof. exact hardfail_const. Qed.
 Print Assumptions hardfail_const.
+
+(* A drained or terminating worker that asks for work is handed nothing: it
+   parks on the undrain wake-up (blocking) or is told to be idle ... *)
+Theorem drained_gets_nothing : forall c w blocking s,
+  is_drained s w = true ->
+  get_next_task c w blocking false s =
+  if blocking then set_call c (PSyncDrained w (q_undrain (get_scq s (w_sk w)))) s else sync_return_idle c w s.
+Proof. exact drained_gets_nothing. Qed.
+Print Assumptions drained_gets_nothing.
+
+(* ... undrain_eligible: once no drain matches (and it is not terminating) the same request searches the queue. *)
+Theorem undrain_eligible : forall c w blocking s,
+  is_drained s w = false ->
+  get_next_task c w blocking false s =
+  let '(s', ok) := assign_next_queued_task w s in
+  if ok then sync_return_exec c w s' else if negb blocking then sync_return_idle c w s else sync_loop c w s.
+Proof. exact undrained_searches. Qed.
+Print Assumptions undrain_eligible.
+
+Theorem is_drained_iff : forall s w,
+  is_drained s w = true <->
+  k_term (get_worker s w) = true \/ exists p, In p (q_drains (get_scq s (w_sk w))) /\ matches w p = true.
+Proof. exact is_drained_iff. Qed.
+Print Assumptions is_drained_iff.
